@@ -370,6 +370,8 @@ impl<'c, 'd> Parser<'c, 'd> {
 
         let mut loperand_index: usize = 0; // logical operand index
         while loperand_index < grammar.operands.len() {
+            #[cfg(feature = "verif-hooks")]
+            crate::verif::step();
             let loperand = &grammar.operands[loperand_index];
             let has_more_coperands = !self.decoder.limit_reached();
             if has_more_coperands {
